@@ -374,6 +374,10 @@ def catalogue(tier, rng, max_n=None):
     fixed = [[[1, 1, 0, 1, 0, 0], [0, 1, 1, 0, 1, 0], [1, 0, 1, 0, 0, 1]],
              [[1, 1, 0, 1, 0, 0], [0, 1, 1, 0, 1, 0], [1, 0, 1, 1, 1, 0]],
              [[1, 1, 1, 1, 0, 0, 0], [0, 0, 1, 1, 1, 1, 0], [1, 1, 0, 0, 1, 1, 0], [0, 0, 0, 0, 0, 0, 0]]]
+    # tall matrices (more checks than variables): the 7x7 circulant of the (7,4) Hamming code plus an overall parity row; redundant rows first
+    circ = [[(0b1011000 >> ((j - i) % 7)) & 1 for j in range(7)] for i in range(7)]
+    fixed.append(circ + [[1] * 7])
+    fixed.append([[1, 1, 0, 0], [1, 1, 0, 0], [0, 0, 0, 0], [1, 1, 0, 0], [0, 1, 1, 0], [0, 0, 1, 1]])
     for H in fixed:
         cat.append(Code("LDPCCodeEncoder", "H=%s" % H, (lambda H=H: E.LDPCCodeEncoder(torch.tensor(H, dtype=torch.float32))), {"H": H}, tags=["ldpc"]))
     cnt = 0
@@ -383,6 +387,11 @@ def catalogue(tier, rng, max_n=None):
         H = [[1 if rng.random() < 0.3 else 0 for _ in range(n)] for _ in range(m)]
         if cnt % 3 == 0 and m >= 2:
             H[-1] = [a ^ b for a, b in zip(H[0], H[1])]          # rank deficient
+        if cnt % 4 == 1 and m >= 2:
+            # tall: n + 2 rows, the first n of them combinations of the first m - 1 checks, an independent check only at the very end
+            base = H[: m - 1]
+            tall = [[sum(r[j] for r in rng.sample(base, rng.randint(1, len(base)))) % 2 for j in range(n)] for _ in range(n + 1)]
+            H = tall + [H[m - 1]]
         if rank(rows_of(H)) == n:
             continue
         cat.append(Code("LDPCCodeEncoder", "H=%s" % H, (lambda H=H: E.LDPCCodeEncoder(torch.tensor(H, dtype=torch.float32))), {"H": H}, tags=["ldpc"]))
